@@ -9,6 +9,10 @@ Ground truth is what the harness itself declared and observed at the seams:
                   finished, had_running, failed, last_configure) - recorded by
                   the wrapper around ``configure()`` (which instance/generation
                   the event file belonged to when the directory was made);
+* ``partial``:    same shape as ``containers`` (flag ``partial``): directories
+                  that appeared in apps/ during a ``configure()`` call that did
+                  not complete (returned None or raised), found by listing
+                  apps/ before and after the call;
 * the links themselves, read from running/ and cleanup/ with the real ``os``;
 * ``hist``:       container name -> list of link operations observed at the
                   ``treadmill.fs.replace`` / ``fs.symlink_safe`` seam:
@@ -252,6 +256,10 @@ def uncleaned(links, cache, containers, apps_dir, only_previously_running,
         lost = _last(hist, cname, 'overwritten', 'cleanup')
         if lost is not None:
             via = 'via-cleanup-link-overwritten-by-' + _by(lost['by'])
+        elif rec.get('partial'):
+            # the directory was made by a configure() that did not complete
+            # (returned None / raised): nothing ever linked it
+            via = 'via-left-by-incomplete-configure'
         elif rec['failed']:
             via = 'via-failed-configure'
         elif raced and rec['inst'] in raced:
